@@ -929,6 +929,43 @@ def c13(rec):
             out.append(V(bad[0], det=bad[1]) if bad else V(None, st="agree"))
         except Exception as e:  # noqa
             out.append(V("mixture_incomplete_on_full_rank", det="%s: %s" % (type(e).__name__, str(e)[:100])))
+    # Integrate against a MIXTURE measure (log-weights + batched Gaussian) over the reals and
+    # the integer inputs:  sum_b w_b Z_b E_b[f]  with per-component values from TLC
+    if batch and not keep and all(f["ok"] for f in rec["full"]):
+        import itertools as _it
+        try:
+            from collections import OrderedDict as _OD
+            lw = np.log(1.0 + np.arange(int(np.prod(bsizes)), dtype=np.float64)).reshape(tuple(bsizes))
+            wt = Tensor(lw, _OD((n, fbuild.dom_of(d)) for n, d in batch))
+            m = wt + g
+            allvars = frozenset(red) | frozenset(n for n, _ in batch)
+            zs = np.array([np.exp(_cv(f["logz"])) for f in rec["full"]])
+            ws = np.exp(lw.reshape(-1))
+            # f = the Gaussian itself at the same batch index -> sum_b w_b Z_b E_b[g_b]
+            want_q = float(np.sum(ws * zs * np.array([vals.scalar_to_float(f["equad"]) for f in rec["full"]])))
+            r = Integrate(m, g, allvars)
+            if isinstance(r, (Tensor, Number)) and not r.inputs:
+                got = float(np.asarray(r.data))
+                out.append(V(None, st="agree") if vals.close(got, want_q) else
+                           V("integrate_mixture_gaussian_value", det={"got": got, "want": want_q}))
+            else:
+                out.append(V("integrate_mixture:lazy", st="declined_lazy"))
+            off = 0
+            for n, d in rec["leaf"]["ins"]:
+                if d["dt"] != 0:
+                    continue
+                size = int(np.prod(d["sh"])) if d["sh"] else 1
+                means = np.array([[vals.scalar_to_float(s) for s in f["mean"][off:off + size]] for f in rec["full"]])
+                want_m = np.sum((ws * zs)[:, None] * means, axis=0).reshape(tuple(d["sh"]))
+                off += size
+                r = Integrate(m, Variable(n, fbuild.dom_of(d)), allvars)
+                if isinstance(r, (Tensor, Number)) and not r.inputs:
+                    out.append(V(None, st="agree") if vals.close(np.asarray(r.data, dtype=float), want_m) else
+                               V("integrate_mixture_variable_value", det={"var": n, "got": np.asarray(r.data).tolist(), "want": want_m.tolist()}))
+                else:
+                    out.append(V("integrate_mixture_var:lazy", st="declined_lazy"))
+        except Exception as e:  # noqa
+            out.append(V("integrate_mixture:" + type(e).__name__, st="declined_error", det=str(e)[:100]))
     # the same Gaussian built from the other parametrisations (exact integer P, eta from TLC)
     if not keep and all(f["ok"] for f in rec["full"]):
         from funsor.gaussian import Gaussian
